@@ -16,22 +16,32 @@ PROJ = "sched"
 MAXI = 9223372036854775807
 
 
-def genparams():
+def genparams(need_fetch=True):
+    """Regenerate Gen/ParamsApi.v and Gen/ParamsFetch.v from the Go sources (fail closed, per file).
+    need_fetch=False (C09): the facts about validateJob / fetchAndReschedule are regenerated when the translator
+    can read them, but their absence does not break this property's step."""
     binp, out = vlib.go_build("genparams")
     if binp is None:
         return False, out
-    rc, out = vlib.run([binp, "-repo", vlib.REPO, "sched"])
-    if rc != 0:
-        return False, out
-    vlib.write_if_changed(os.path.join(vlib.coq_dir(PROJ), "theories", "Gen", "Params.v"), out)
+    gen = os.path.join(vlib.coq_dir(PROJ), "theories", "Gen")
+    results = {}
+    for section, fn in (("sched-api", "ParamsApi.v"), ("sched-fetch", "ParamsFetch.v")):
+        rc, out = vlib.run([binp, "-repo", vlib.REPO, section])
+        results[section] = (rc, out)
+        if rc == 0:
+            vlib.write_if_changed(os.path.join(gen, fn), out)
+    if results["sched-api"][0] != 0:
+        return False, results["sched-api"][1]
+    if need_fetch and results["sched-fetch"][0] != 0:
+        return False, results["sched-fetch"][1]
     return True, ""
 
 
-def proof_step(ctx, prop):
+def proof_step(ctx, prop, need_fetch=True):
     """Like vlib.proof_step, but builds only what Props/<prop>.v depends on, so that a generated fact
     that matters to another property of this engine does not break this one's proofs."""
     broken = None
-    ok, out = genparams()
+    ok, out = genparams(need_fetch)
     if not ok:
         broken = {"stage": "genparams", "detail": out[-3000:],
                   "what": "translator could not read the expected declarations from the scheduler sources"}
@@ -370,6 +380,7 @@ def run_steps(ctx, binp, ml, profile, seed, only=None, timeout=900):
         elif t[0] == "F":
             res["fetches"] += 1
             hint = None if t[3] == "-" else t[3] + "/" + t[4]
+            susp_before = {k for k, v in reg.items() if v[0]}
             w = spec_fetch(reg, trigs, int(t[1]), int(t[2]), hint)
             if w is None:
                 res["no_verdict"] += 1
@@ -396,8 +407,11 @@ def run_steps(ctx, binp, ml, profile, seed, only=None, timeout=900):
         if want is not None and got != want and not bad_seq:
             d = context(i)
             d.update({"profile": profile, "seed": seed})
-            res["failures"].append({"case": d, "observed": o, "specification": want,
-                                    "why": ["the implementation's answer differs from the property's specification of this step"]})
+            fl = {"case": d, "observed": o, "specification": want,
+                  "why": ["the implementation's answer differs from the property's specification of this step"]}
+            if t[0] == "F" and want.split(":")[0] in susp_before:
+                fl["popped_suspended"] = True
+            res["failures"].append(fl)
             bad_seq = True  # later steps of the sequence follow from this one
         # resynchronise the oracle with what the implementation holds now
         if oreg is not None:
@@ -440,8 +454,8 @@ def tags_of(f):
         tg.add("C04")
     if len(op) > 1 and len(wp) > 1 and op[1] != wp[1]:
         tg.add("C04")
-    # the popped job was suspended (parked): pausing is what went wrong
-    if wt[0].endswith(":%d:0" % MAXI) or ":%d:" % MAXI in wt[0]:
+    # the popped job was suspended: pausing is what went wrong
+    if f.get("popped_suspended") or ":%d:" % MAXI in wt[0]:
         tg.add("C08")
     return tg or {"C04"}
 
